@@ -26,7 +26,7 @@ Contexts == << [name |-> "top", prefix |-> "model\n  schema 1.1\n", suffix |-> "
                [name |-> "bare", prefix |-> "", suffix |-> ""] >>
 TextEntries == {"TransformDSLToProto", "TransformModuleFilesToModel"}
 BareEntries == {"TransformJSONStringToDSL", "TransformModFile", "Validators"}
-ModelFamilies == <<"chain", "ladder3", "diamonds", "ttuchain", "usersets", "wideunion", "clique", "nestleft", "nestright", "nestmixed">>
+ModelFamilies == <<"chain", "ladder3", "diamonds", "ttuchain", "usersets", "wideunion", "clique", "nestleft", "nestright", "nestmixed", "wilddiamonds", "wildladder">>
 ModelEntries == {"WeightedGraphBuilder.Build", "NewAuthorizationModelGraph", "TransformJSONProtoToDSL"}
 
 GenInit == st = "start"
